@@ -85,6 +85,7 @@ def write_evidence(prop, tier, seed, mod, names, results, missing, killed, wall,
             "violations": [{"obligation": n, "label": v.get("label"), "inputs": v.get("inputs"), "replay": v.get("replay"),
                             "detail": v.get("detail")} for n, v in violations][:20],
             "solver": "z3 " + _z3v(),
+            "second_solver_crosscheck": _merge_xcheck(recs),
             "repo": _repo_state(),
             "trusted_base": ["z3", "symfl shim's model of NumPy element semantics (checked by per-path conformance runs "
                              "against real NumPy)", "oracles in /verif/spec and in the harness"],
@@ -96,6 +97,14 @@ def write_evidence(prop, tier, seed, mod, names, results, missing, killed, wall,
     with open(os.path.join(VERIF, "evidence", f"{prop}.json"), "w") as f:
         json.dump(ev, f, indent=1, sort_keys=False)
         f.write("\n")
+
+
+def _merge_xcheck(recs):
+    tot = {}
+    for r in recs:
+        for k, v in (r.get("meta", {}).get("second_solver") or {}).items():
+            tot[k] = tot.get(k, 0) + v
+    return tot or "not run in this tier (thorough tier / VERIF_XCHECK=1: every 5th decided query re-decided by /usr/bin/z3 4.8.12 and cvc5)"
 
 
 def _z3v():
